@@ -1044,7 +1044,7 @@ def _class_shape(cls):
             if st.name.startswith("__") and st.name.endswith("__") and st.name not in _ALLOWED_DUNDERS:
                 return None
             ps = st.args.posonlyargs + st.args.args
-            if not ps or st.args.vararg or st.args.kwarg:
+            if not ps or (st.name == "__init__" and (st.args.vararg or st.args.kwarg)):
                 return None
             methods[st.name] = st
             continue
